@@ -37,6 +37,8 @@ INVALID_REG_TYPES = [0, 1, 7, 8, 9, 10, 14, 15, 18, 19, 20, 21, 22, 23, 24]
 # gp-ptr, xmm, k), every other one names nothing anywhere
 VIRT_IDS = [256, 257, 258, 259, 260, 261, 300, 4096, 0x7FFFFFFF, 0x80000000, 0xFFFFFFFE, 0xFFFFFFFF]
 REAL_VIRT = {"gp32": 256, "gp64": 257, "xmm": 258, "k": 259}
+REX_REQUESTS = [G.OPT_REX, 0x01000000, 0x02000000, 0x04000000, 0x08000000]      # rex(), kX86_OpCodeB / X / R / W
+REX_MASK = 0x4F000000
 VIRT_RATE = {"asm": 14, "builder": 14, "compiler": 4}     # one id in N is drawn from the virtual range
 
 
@@ -162,6 +164,16 @@ def gen_cases(rng, forms, mode, n, emitter="asm", kinds_kept=False):
         name = f["name"]
         s = rng.below(100)
         tag = "valid"
+        if mode == 32 and not f.get("prefix") and rng.chance(1, 4):
+            # x86-32: a valid operand list (register or memory form) with a request for a REX prefix - rex() or one of the REX.B/X/R/W
+            # option bits. The validator does not know these bits; the 32-bit Assembler itself must refuse them (kInvalidRexPrefix).
+            want_mem = rng.chance(1, 2)
+            alt = gen.instantiate(f, mode, want_mem)
+            if alt is not None:
+                ops = list(alt)
+            opts = rng.choice(REX_REQUESTS) if rng.chance(3, 4) else (rng.choice(REX_REQUESTS) | rng.choice(REX_REQUESTS))
+            cases.append(dict(id=len(cases), arch="x86", form=f["_idx"], name=name, opts=opts, extra=None, ops=ops, variant="rex32"))
+            continue
         if kinds_kept and 55 <= s < 78:
             s = 10 + (s - 55)      # no random operand lists / operand counts
         if s < 10:
@@ -255,7 +267,8 @@ def worker(arg):
     cases = gen_cases(rng, forms, mode, n, emitter, kinds_kept=not validate)
     lines = [case_line(c) for c in cases]
     extra = ["--emitter", emitter, "--handler", handler, "--arch", "x64" if mode == 64 else "x86", "--handler-on", "emitter" if own else "holder",
-             "--validate", "1" if validate else "0", "--reattach", str(reattach), "--pass2", "1", "--iso", str(cfg.get("iso", 0))]
+             "--validate", "1" if validate else "0", "--reattach", str(reattach), "--pass2", "1", "--iso", str(cfg.get("iso", 0)),
+             "--settings", str(cfg.get("settings", 0)), "--settings-seed", str(seed * 1000 + shard)]
     etag = emitter if validate else emitter + "-novalidate"
     rc, out, err = c01._emit(exe, lines, extra)
     viol = []
@@ -306,6 +319,34 @@ def worker(arg):
             stats["novalidate_calls"] += 1
         if own:
             stats["calls_with_handler_on_emitter"] += 1
+        # (only the generated class: a legacy-encoded form with valid operands; VEX/EVEX/XOP forms have no REX byte to refuse)
+        rex32 = mode == 32 and c["variant"] == "rex32"
+        after_ev = r["ev"] > 0
+        if after_ev:
+            stats["calls_after_settings_events"] += 1
+        if r["fh"]:
+            viol.append(("settings:foreign-handler-called:%s" % etag, "a handler that is not in charge (set on the CodeHolder while the emitter owns one / detached again) was called %d times: %s -> %s" % (r["fh"], line, r), line))
+        if rex32:
+            form_kind = "mem" if any(op[0] == "M" for op in c["ops"]) else "reg" if any(op[0] == "R" for op in c["ops"]) else "other"
+            stats["rex32_requests:%s" % emitter] += 1
+            if after_ev:
+                stats["rex32_after_settings_events:%s:%s" % (emitter, form_kind)] += 1
+                for bit, nm in ((G.OPT_REX, "rex"), (0x01000000, "b"), (0x02000000, "x"), (0x04000000, "r"), (0x08000000, "w")):
+                    if c["opts"] & bit:
+                        stats["rex32_after_settings_events_bit:" + nm] += 1
+            raw = bytes.fromhex(r.get("bytes") or "")
+            k0 = 0
+            while k0 < len(raw) and raw[k0] in (0x66, 0x67, 0xF2, 0xF3, 0xF0, 0x2E, 0x36, 0x3E, 0x26, 0x64, 0x65):
+                k0 += 1
+            rex_byte = k0 < len(raw) and 0x40 <= raw[k0] <= 0x4F and c["name"] not in ("inc", "dec")
+            if r["err"] == 0 and emitter == "asm" and not rex_byte:
+                stats["rex32_request_dropped_or_not_judged"] += 1         # accepted without a 0x4x byte: the request was ignored (C01 oracles judge the bytes)
+            if r["err"] == 0 and emitter == "asm" and rex_byte:
+                viol.append(("success:rex-request-accepted-in-32-bit-mode:%s" % etag, "x86-32: a request for a REX prefix (options 0x%x) returned kOk and appended %s (handler calls %d, %d settings events before, %s): %s"
+                             % (c["opts"], r.get("bytes"), r["h"], r["ev"], " ".join(extra[2:10]), line), line))
+                continue
+            if r["err"] != 0 and after_ev and emitter == "asm":
+                stats["rex32_refused_after_settings_events"] += 1
         if r["err"] != 0:
             stats["failed"] += 1
             if not validate:
@@ -449,10 +490,21 @@ def worker(arg):
         stats["iso_finalize_runs"] += final["iso_runs"]
         stats["iso_with_nonexistent_virtual_id"] += final["iso_ghost"]
         stats["iso_finalize_refused"] += final["iso_refused"]
+        stats["iso_with_rex_request_32"] += final["iso_rex32"]
+        stats["iso_rex_request_32_refused_in_finalize"] += final["iso_rex32_refused"]
+        stats["iso_rex_request_32_dropped"] += final["iso_rex32_dropped"]
+        if cfg.get("settings") and mode == 32 and final["iso_rex32"] == 0 and n >= 400:
+            raise common.HarnessError("no x86-32 REX request reached an isolated finalize() in a %s job with settings events" % emitter)
         for iv in final["iso_viol"]:
             cl = lines[iv["case"]]
-            viol.append(("deferred:%s:%s%s" % (iv["problem"], emitter, ":handler-on-emitter" if own and iv["problem"].startswith("finalize-") else ""), "compiler accepted an instruction with a virtual-range register id%s; alone in a fresh function finalize() returned %d and called the handler %d times (%s): %s"
-                         % (" that names no virtual register" if iv["ghost"] else "", iv["fin"], iv["h"], handler, cl), cl))
+            viol.append(("deferred:%s:%s%s" % (iv["problem"], emitter, ":handler-on-emitter" if own and iv["problem"].startswith("finalize-") else ""), "%s recorded an instruction with a virtual-range register id / a REX request in 32-bit mode%s; alone in a fresh emitter finalize() returned %d and called the handler %d times (%s): %s"
+                         % (emitter, " that names no virtual register" if iv["ghost"] else "", iv["fin"], iv["h"], handler, cl), cl))
+    stats["settings_events"] += final["settings_events"]
+    stats["settings_bursts"] += final["settings_bursts"]
+    if cfg.get("settings") and mode == 32 and emitter == "asm" and n >= 400 and not viol:
+        got = sum(v for k, v in stats.items() if k.startswith("rex32_after_settings_events:asm:"))
+        if final["settings_events"] == 0 or got == 0 or not stats["rex32_after_settings_events:asm:reg"] or not stats["rex32_after_settings_events:asm:mem"]:
+            raise common.HarnessError("x86-32 job with settings events: %d events, REX requests after them: %s" % (final["settings_events"], {k: v for k, v in stats.items() if k.startswith("rex32")}))
     stats["reattaches"] += final["reattaches"]
     stats["detached_calls"] += final["detached_calls"]
     for dv in final["detached_viol"]:
@@ -478,14 +530,15 @@ def run(tier, args):
                 reps = (6 if emitter == "asm" else 3 if emitter == "builder" else 2) if tier == "quick" else (16 if emitter == "asm" else 6)
                 for r in range(reps):
                     k = r % 3 if emitter != "compiler" else (r + (mode == 32) + (handler == "throw")) % 3
-                    cfg = dict(own=(k == 1 and handler != "none"), reattach=(max(40, int(500 * args.scale)) if k == 1 else max(40, int(700 * args.scale)) if k == 2 else 0), validate=True, iso=(400 if tier == "quick" else 3000))
+                    cfg = dict(own=(k == 1 and handler != "none"), reattach=(max(40, int(500 * args.scale)) if k == 1 else max(40, int(700 * args.scale)) if k == 2 else 0), validate=True, iso=(400 if tier == "quick" else 3000),
+                               settings=(max(10, int(120 * args.scale)) if r % 2 == 1 else 0))      # settings events after attach and inside the stream: every second repetition
                     jobs.append((s, chk.seed, per, exe, emitter, handler, mode, cfg))
                     s += 1
     # the Assembler without strict validation (what most users run): operand kinds kept, everything else arbitrary; same failure oracles
     for handler in ("return", "throw"):
         for mode in (64, 32):
             for r in range(2 if tier == "quick" else 6):
-                cfg = dict(own=(r % 2 == 1), reattach=(max(40, int(900 * args.scale)) if r % 2 else 0), validate=False)
+                cfg = dict(own=(r % 2 == 1), reattach=(max(40, int(900 * args.scale)) if r % 2 else 0), validate=False, settings=(max(10, int(120 * args.scale)) if r % 2 == 1 else 0))
                 jobs.append((s, chk.seed, per, exe, "asm", handler, mode, cfg))
                 s += 1
     import time
@@ -568,6 +621,12 @@ def run(tier, args):
         "calls on a detached emitter": stats["detached_calls"],
         "pass-2 programs compared (Builder/Compiler fed only failing lines)": stats["pass2_programs_compared"],
         "handler-routing probes": route_n,
+        "settings events after attach": stats["settings_events"],
+        "calls after settings events": stats["calls_after_settings_events"],
+        "x86-32 REX requests refused by the Assembler after settings events": stats["rex32_refused_after_settings_events"],
+        "x86-32 REX requests after settings events, each of rex/B/X/R/W": min(stats["rex32_after_settings_events_bit:" + b] for b in ("rex", "b", "x", "r", "w")),
+        "x86-32 REX requests refused in an isolated Builder/Compiler finalize()": stats["iso_rex_request_32_refused_in_finalize"],
+        "x86-32 REX requests as routing probes": stats["api_route.entry.inst.rex-in-32-bit-mode"],
         "argument-error calls on Builder/Compiler (align)": stats["api_lbl.kind.bad-alignment"] + stats["api_lbl.kind.undefined-mode"],
         "argument-error calls (embed size)": stats["api_lbl.kind.bad-size"],
         "argument-error calls (undefined data type)": stats["api_lbl.kind.undefined-type"],
@@ -584,6 +643,7 @@ def run(tier, args):
         "phase_wall_s": phase,
         "virtual_ids_and_reg_home": {k: v for k, v in stats.items() if k.startswith(("calls_with_virtual", "calls_with_real", "calls_with_reg_home", "virtual_range", "reg_home_refused", "iso_"))},
         "novalidate": {k: v for k, v in stats.items() if k.startswith("novalidate")},
+        "settings_events": {k: v for k, v in stats.items() if k.startswith(("settings_", "rex32", "calls_after_settings", "iso_with_rex", "iso_rex"))},
         "attachment_histories": {"calls_with_handler_on_emitter": stats["calls_with_handler_on_emitter"], "reattaches": stats["reattaches"], "detached_calls": stats["detached_calls"],
                                  "route_probes": route_n, "route": {k[10:]: v for k, v in stats.items() if k.startswith("api_route.")}},
         "pass2": {k: v for k, v in stats.items() if k.startswith("pass2")},
